@@ -203,7 +203,8 @@ def op_to_coq(op, ob=None):
     if n == "scanall":
         return "OScanAll %s %s %s" % (w(op[1]), cnat(op[2]), cN(op[3]))
     if n == "xfer":
-        return "OXfer"
+        order = ob[3] if ob is not None and len(ob) > 3 and ob[3] else []
+        return "OXfer %s" % clist(cN(int(h)) for h in order)
     raise ValueError(n)
 
 
